@@ -1,3 +1,150 @@
-(* placeholder while the proofs are being written *)
-From Coq Require Import List NArith.
-From DDP Require Import Lex.ScanModel.
+(* C13 — the token stream is a faithful, positioned partition of the source.
+   Model: Lex/ScanModel.v (scanner.go on code points), Lex/Utf8.v (gate, decoding, encoding), Lex/ScanRun.v.
+   Specification vocabulary (Lex/ScanSpec.v): pos_of (positions by counting), sub, blank, tiles (partition),
+   positioned, class_ok (lexical rules), indents (indentation rule).
+   Only statements + `exact` of lemmas proved in Lex/*Proofs*.v, each followed by Print Assumptions.
+   Status: full = C13_fuel, C13_one_eof, C13_partition, C13_positions_normal, C13_utf8_gate (+ roundtrip,
+   refusal), C13_kinds (+ readings), C13_indent_normal; the all-modes statements of positions and
+   indentation are REFUTED in alias mode (line feed inside an alias parameter) and proved there under
+   the hypothesis that excludes exactly that case (_partial). *)
+From Coq Require Import List NArith Bool.
+Import ListNotations.
+From DDP Require Import Gen.Tokens Lex.Utf8 Lex.Utf8Proofs Lex.ScanModel Lex.ScanSpec Lex.ScanRun
+  Lex.ScanProofs Lex.ScanKinds Lex.ScanIndent Lex.ScanFacts.
+Open Scope N_scope.
+
+(* 1. never out of fuel: every NextToken consumes at least one code point or returns EOF, so
+      length+1 rounds of ScanAll (and of every inner loop) suffice — for every source, valid or not *)
+Theorem C13_fuel :
+  forall (m : mode) (l0 c0 i0 : N) (src : list N), scan_from m l0 c0 i0 src <> None.
+Proof. exact scan_fuel. Qed.
+Print Assumptions C13_fuel.
+
+(* 2. exactly one EOF token, at the end *)
+Theorem C13_one_eof :
+  forall m l0 c0 i0 src ts, scan_from m l0 c0 i0 src = Some ts ->
+    exists body e, ts = body ++ [e] /\ ty e = tt_EOF /\ Forall (fun t => ty t <> tt_EOF) body.
+Proof. exact scan_one_eof. Qed.
+Print Assumptions C13_one_eof.
+
+(* 3. partition: the spans are ordered, disjoint, non-empty (but EOF), separated by blanks only, they
+      reach the end of the source, and the literal of every non-ILLEGAL token is the source substring *)
+Theorem C13_partition :
+  forall m l0 c0 i0 src ts, scan_from m l0 c0 i0 src = Some ts -> tiles src 0 ts.
+Proof. exact scan_partition. Qed.
+Print Assumptions C13_partition.
+
+(* 4. positions: Range.Start / Range.End are the line/column of the span's first code point / of the
+      code point behind it, counted independently (pos_of; 1-based when scanning starts at 1:1) *)
+Theorem C13_positions_normal :
+  forall l0 c0 i0 src ts, scan_from Normal l0 c0 i0 src = Some ts -> Forall (positioned l0 c0 src) ts.
+Proof. exact (fun l0 c0 i0 src ts H => scan_positions Normal l0 c0 i0 src ts H (or_introl eq_refl)). Qed.
+Print Assumptions C13_positions_normal.
+
+(*    the same statement for alias mode is false: `<`, LF, `>`, x *)
+Theorem C13_positions_refuted :
+  exists src ts, scan_from Alias 1 1 0 src = Some ts /\ ~ Forall (positioned 1 1 src) ts.
+Proof. exact positions_alias_refuted. Qed.
+Print Assumptions C13_positions_refuted.
+
+(*    what holds in every mode: exact positions unless an alias parameter contains a line feed *)
+Theorem C13_positions_partial :
+  forall m l0 c0 i0 src ts, scan_from m l0 c0 i0 src = Some ts ->
+    (m = Normal \/ forall t, In t ts -> ty t = tt_ALIAS_PARAMETER -> ~ In 10 (lit t)) ->
+    Forall (positioned l0 c0 src) ts.
+Proof. exact scan_positions. Qed.
+Print Assumptions C13_positions_partial.
+
+(* 5. the UTF-8 gate accepts exactly the encodings of code-point lists; it is the only way to be
+      refused; behind it the model scans the decoded source, and decoding inverts encoding *)
+Theorem C13_utf8_gate :
+  forall bs : list N, valid bs = true <-> exists cps, encode cps = bs.
+Proof. exact utf8_gate. Qed.
+Print Assumptions C13_utf8_gate.
+
+Theorem C13_utf8_roundtrip :
+  (forall bs, valid bs = true -> encode (decode bs) = bs) /\
+  (forall cps, forallb scalar cps = true -> decode (encode cps) = cps).
+Proof. exact (conj valid_encode_decode decode_encode). Qed.
+Print Assumptions C13_utf8_roundtrip.
+
+Theorem C13_invalid_refused :
+  forall m l0 c0 i0 bs,
+    (valid bs = false -> scan_bytes m l0 c0 i0 bs = Refused) /\
+    (valid bs = true -> exists ts, scan_bytes m l0 c0 i0 bs = Toks ts /\ scan_from m l0 c0 i0 (decode bs) = Some ts).
+Proof. exact (fun m l0 c0 i0 bs => conj (invalid_refused m l0 c0 i0 bs) (valid_scanned m l0 c0 i0 bs)). Qed.
+Print Assumptions C13_invalid_refused.
+
+(* 6. kinds: every token is an instance of a lexical rule (class_ok), read per type below *)
+Theorem C13_kinds :
+  forall m l0 c0 i0 src ts, scan_from m l0 c0 i0 src = Some ts ->
+    Forall (fun t => class_ok m (tend t = len src) (ty t) (sub src (tstart t) (tend t))) ts.
+Proof. exact scan_kinds. Qed.
+Print Assumptions C13_kinds.
+
+Theorem C13_kind_readings :
+  forall m (P : Prop) l,
+    (class_ok m P tt_INT l -> digits l) /\
+    (class_ok m P tt_FLOAT l -> exists a b, l = a ++ 44 :: b /\ digits a /\ digits b) /\
+    (class_ok m P tt_IDENTIFIER l -> word l /\ keyword_type l = None) /\
+    (class_ok m P tt_STRING l -> quoted_lit 34 l) /\
+    (class_ok m P tt_CHAR l -> quoted_lit 39 l) /\
+    (class_ok m P tt_COMMENT l -> exists b d, l = 91 :: b /\ depth_after 1 b = Some d /\ (d = 0 \/ P)) /\
+    (forall t, ~ In t special_types -> class_ok m P t l -> word l /\ keyword_type l = Some t) /\
+    (forall t, word l -> class_ok m P t l ->
+       match keyword_type l with Some v => t = v | None => t = tt_IDENTIFIER end).
+Proof.
+  exact (fun m P l => conj (class_int m P l) (conj (class_float m P l) (conj (class_identifier m P l)
+          (conj (class_string m P l) (conj (class_char m P l) (conj (class_comment m P l)
+          (conj (fun t => class_keyword m P t l) (fun t => class_word m P t l)))))))).
+Qed.
+Print Assumptions C13_kind_readings.
+
+Theorem C13_normal_mode_has_no_alias_parameter :
+  forall l0 c0 i0 src ts, scan_from Normal l0 c0 i0 src = Some ts -> forall t, In t ts -> ty t <> tt_ALIAS_PARAMETER.
+Proof. exact normal_no_alias_parameter. Qed.
+Print Assumptions C13_normal_mode_has_no_alias_parameter.
+
+(* 7. indentation rule *)
+Theorem C13_indent_normal :
+  forall l0 c0 i0 src ts, scan_from Normal l0 c0 i0 src = Some ts -> indents src true 0 i0 ts.
+Proof. exact (fun l0 c0 i0 src ts H => scan_indents Normal l0 c0 i0 src ts H (or_introl eq_refl)). Qed.
+Print Assumptions C13_indent_normal.
+
+Theorem C13_indent_refuted :
+  exists src ts, scan_from Alias 1 1 0 src = Some ts /\ ~ indents src true 0 0 ts.
+Proof. exact indents_alias_refuted. Qed.
+Print Assumptions C13_indent_refuted.
+
+Theorem C13_indent_partial :
+  forall m l0 c0 i0 src ts, scan_from m l0 c0 i0 src = Some ts ->
+    (m = Normal \/ forall t, In t ts -> ty t = tt_ALIAS_PARAMETER -> ~ In 10 (lit t)) ->
+    indents src true 0 i0 ts.
+Proof. exact scan_indents. Qed.
+Print Assumptions C13_indent_partial.
+
+(* the depth computed by skipWhitespace over a gap is the declarative rule *)
+Theorem C13_gap_depth_rule :
+  forall ws sh d run, Forall blank ws ->
+    gapd sh d run ws = if has_lf ws then indent_run 0 (after_last_lf ws)
+                       else if sh then d + indent_run run ws else d.
+Proof. exact gapd_spec. Qed.
+Print Assumptions C13_gap_depth_rule.
+
+(* non-vacuity: a source with keywords, identifier, decimal-comma number, text with escape, nested comment
+   and an indented second line; an alias satisfying the hypothesis of the _partial theorems; gate samples *)
+Example C13_sample_tokens :
+  option_map (map (fun t => (length (lit t), tindent t, (sl t, sc t), (el t, ec t)))) (scan Normal sample) =
+  Some [(4%nat, 0, (1,1), (1,5)); (1%nat, 0, (1,6), (1,7)); (6%nat, 0, (1,8), (1,14)); (3%nat, 0, (1,15), (1,18));
+        (3%nat, 0, (1,19), (1,22)); (3%nat, 0, (1,23), (1,26)); (1%nat, 0, (1,26), (1,27));
+        (8%nat, 1, (2,2), (2,10)); (5%nat, 1, (2,11), (2,16)); (7%nat, 1, (2,17), (2,24)); (1%nat, 1, (2,24), (2,25));
+        (0%nat, 1, (2,25), (2,25))].
+Proof. exact sample_tokens. Qed.
+Example C13_sample_alias :
+  exists ts, scan_from Alias 3 7 2 sample_alias = Some ts /\
+    (forall t, In t ts -> ty t = tt_ALIAS_PARAMETER -> ~ In 10 (lit t)) /\
+    exists t, In t ts /\ ty t = tt_ALIAS_PARAMETER.
+Proof. exact sample_alias_ok. Qed.
+Example C13_sample_utf8 :
+  valid [195; 164; 226; 130; 172; 240; 159; 152; 128] = true /\ valid [237; 160; 128] = false /\ valid [192; 128] = false.
+Proof. exact sample_utf8. Qed.
